@@ -165,11 +165,11 @@ class Scalar(Qube):
 
         # Without a replacement...
         if masked is None:
-            new_values = self._values_.astype(np.intp)
+            new_values = np.asarray(self._values_).astype(np.intp)
 
         # If all masked...
         elif Qube.is_one_true(self._mask_):
-            new_values = np.empty(self._values_.shape, dtype=np.intp)
+            new_values = np.empty(np.shape(self._values_), dtype=np.intp)
             new_values[...] = masked
 
         # If partially masked...
